@@ -222,23 +222,31 @@ func main() {
 		r.Finish(evid.Coverage{})
 	}
 
-	// Bounds. Mutable (BFS with merging): depth 7 / 9 for every seed of {1,2,3} / {1,2,3,4}.
-	// Immutable (every one of the 12^d sequences is executed, nothing merged): quick = depth 7
-	// with seed 1 and depth 6 with seeds 2,3; thorough = depth 8 with seeds 1..4.
-	depth := r.Pick(7, 9)
-	seeds := []int64{1, 2, 3}
-	immDepths := map[int64]int{1: 7, 2: 6, 3: 6}
+	// Bounds.
+	// quick:    mutable BFS depth 6 with priority seeds {1,2}; immutable (every one of the 12^d
+	//           sequences executed, nothing merged) depth 6 with seed 1 and depth 5 with seeds 2,3.
+	// thorough: mutable depth 9 with seeds {1,2,3,4}; immutable depth 8 with seed 1 and depth 7
+	//           with seeds 2,3,4.
+	depth := r.Pick(6, 9)
+	seeds := []int64{1, 2}
+	immSeeds := []int64{1, 2, 3}
+	immDepths := map[int64]int{1: 6, 2: 5, 3: 5}
 	if r.Thorough() {
 		seeds = []int64{1, 2, 3, 4}
-		immDepths = map[int64]int{1: 8, 2: 8, 3: 8, 4: 8}
+		immSeeds = seeds
+		immDepths = map[int64]int{1: 8, 2: 7, 3: 7, 4: 7}
 	}
 	immDepth := immDepths[1]
 	var jobs []string
 	for _, s := range seeds {
 		jobs = append(jobs, fmt.Sprintf("mut:%d:%d", s, depth))
 	}
-	for _, s := range seeds {
+	for _, s := range immSeeds {
 		for _, a := range allOps {
+			if immDepths[s] <= 6 { // small trees: one shard per leading operation
+				jobs = append(jobs, fmt.Sprintf("imm:%d:%d:%s", s, immDepths[s], a))
+				continue
+			}
 			for _, b := range allOps {
 				jobs = append(jobs, fmt.Sprintf("imm:%d:%d:%s,%s", s, immDepths[s], a, b))
 			}
@@ -281,7 +289,7 @@ func main() {
 			immS += o.States
 			immT += o.Transitions
 			immReads += o.Reads
-			if len(o.Samples) > 0 && len(samples) < 6 && strings.HasSuffix(o.Job, "p00,d3") {
+			if len(o.Samples) > 0 && len(samples) < 6 && (strings.HasSuffix(o.Job, "p00,d3") || strings.HasSuffix(o.Job, ":d3")) {
 				samples = append(samples, map[string]interface{}{"system": "immutable", "job": o.Job, "history": o.Samples[0]})
 			}
 		}
@@ -320,14 +328,14 @@ func main() {
 		"immutable_operations":          immT,
 		"immutable_old_version_rereads": immReads,
 		"max_depth_completed":           map[string]int{"mutable": depth, "immutable": immDepth},
-		"priority_seeds":                seeds,
+		"priority_seeds":                map[string][]int64{"mutable": seeds, "immutable": immSeeds},
 		"immutable_depth_per_seed":      fmt.Sprint(immDepths),
 		"exhaustive":                    exhaustive,
 		"cap":                           capNote,
 		"samples":                       samples,
 		"rule": "alphabet {put(k,v), delete(k)} over keys {b,dd,f,hhh} x values {nil(=empty),xyz}; " +
 			"mutable: BFS with dedup on (contents, priority-stream index of every present key, stream position, long-lived iterator position, Len, Size), all 12 successors of every state up to the depth bound; " +
-			"immutable: DFS over ALL 12^d sequences, every version retained on the stack and re-read after every later operation (immutable_version_stacks = distinct sequences of version contents, counted per shard of two leading operations and summed); " +
+			"immutable: DFS over ALL 12^d sequences, every version retained on the stack and re-read after every later operation (immutable_version_stacks = distinct sequences of version contents, counted exactly through canonical paths); " +
 			"each run repeated for every seed of the priority menu in its own process; oracle after every step: Len, Size (linear in a measured per-node constant), Has/Get on 9 probe keys, ForEach order and early stop, unrestricted and 4 range-limited iterators (new-iterator Next/Prev, full forward/backward passes, Seek on every probe then Next/Prev, zig-zag), iterators created before the update (mutable: ForceReseek then continue/reposition; immutable: untouched)",
 	}
 	r.Assume = append(r.Assume,
